@@ -12,7 +12,7 @@
 (*    obs |-> [nonexh |-> BOOLEAN,   \* non-exhaustive diagnostic present  *)
 (*             cex |-> pattern parsed from the diagnostic's text,          *)
 (*             useless |-> BOOLEAN,  \* "pattern is irrefutable" present   *)
-(*             panic |-> STRING], src |-> the samlang text, ...]           *)
+(*             panic |-> STRING]]                                          *)
 (* Records are independent; the state is the index l of a record (and its  *)
 (* arm list), the indices are visited as a binary tree so that workers     *)
 (* share the evaluation.  The invariants up to UselessIffIrrefutable are   *)
@@ -49,7 +49,7 @@ StrictOK ==
                   /\ ~E.obs.useless
   /\ E.form = "iflet" => /\ E.obs.useless = AlgIrrefutable(arms[1], Root)
                          /\ ~E.obs.nonexh
-Drift == StrictOK \/ PrintT(<<"DRIFT", l, E.src>>)
+Drift == StrictOK \/ PrintT(<<"DRIFT", l>>)
 
 AllJudged == TLCGet("stats").distinct = N
 =============================================================================
